@@ -569,6 +569,151 @@ func runPIT(c Case) (vs []viol, outcome string, writes int) {
 	return vs, fmt.Sprintf("declared=%d pairs=%d", declared, len(got)), hw.n
 }
 
+// hookReader calls hook before its at-th Read.
+type hookReader struct {
+	r    io.Reader
+	n    int
+	at   int
+	hook func()
+}
+
+func (h *hookReader) Read(p []byte) (int, error) {
+	h.n++
+	if h.n == h.at {
+		h.hook()
+	}
+	return h.r.Read(p)
+}
+
+// overlapRestoreOne: two loads of the SAME table overlap (a follower recovery and an operator's
+// restore, two operators): load A reaches its k-th read, then load B either runs to completion
+// (nested) or runs up to its first read and is held there until A has returned (paused). A load that
+// reported success is what the table serves until another load reports success.
+func overlapRestoreOne(e *engx.Engine, k int, nested bool) (vs []viol, outcome string, reads int, inconclusive bool) {
+	n := seq.Add(1)
+	srcA, srcB, tgt := fmt.Sprintf("ovA%d", n), fmt.Sprintf("ovB%d", n), fmt.Sprintf("ovT%d", n)
+	wantA, err := fill(e, srcA, []int{40, 41, 42})
+	if err != nil {
+		return nil, "", 0, true
+	}
+	wantB, err := fill(e, srcB, []int{7, 8})
+	if err != nil {
+		return nil, "", 0, true
+	}
+	pathA, declA, err := streamOf(e, srcA)
+	if err != nil {
+		return nil, "", 0, true
+	}
+	defer os.Remove(pathA)
+	pathB, declB, err := streamOf(e, srcB)
+	if err != nil {
+		return nil, "", 0, true
+	}
+	defer os.Remove(pathB)
+	m := managerFor(e, 0)
+	defer m.Close()
+	fa, err := snapshot.OpenFile(pathA)
+	if err != nil {
+		return nil, "", 0, true
+	}
+	defer fa.Close()
+	fb, err := snapshot.OpenFile(pathB)
+	if err != nil {
+		return nil, "", 0, true
+	}
+	defer fb.Close()
+	bAtFirstRead, releaseB, bDone := make(chan struct{}), make(chan struct{}), make(chan error, 1)
+	rb := &hookReader{r: fb, at: 1, hook: func() {
+		close(bAtFirstRead)
+		<-releaseB
+	}}
+	if nested {
+		close(releaseB)
+	}
+	ra := &hookReader{r: fa, at: k, hook: func() {
+		go func() { bDone <- m.Restore(tgt, rb) }()
+		if nested {
+			bDone <- <-bDone // wait for B's verdict, keep it for later
+			return
+		}
+		select {
+		case <-bAtFirstRead:
+		case err := <-bDone: // B ended before its first read
+			bDone <- err
+		case <-time.After(60 * time.Second):
+		}
+	}}
+	cs := fmt.Sprintf("load B starts at load A's read %d (%s)", k, map[bool]string{true: "and completes there", false: "and is held at its first read until A has returned"}[nested])
+	aerr, timedOut := withDeadline(120*time.Second, func() error { return m.Restore(tgt, ra) })
+	if timedOut {
+		if !nested {
+			close(releaseB)
+		}
+		return nil, "", ra.n, true
+	}
+	started := ra.n >= k
+	check := func(who string, want []*regattapb.KeyValue, decl uint64) {
+		got, li, _, err := dumpVia(m, tgt)
+		switch {
+		case err != nil:
+			vs = append(vs, viol{"overlapping-loads/table-unreadable-after-a-load-reported-success", fmt.Sprintf("%s: after load %s reported success: %v", cs, who, err)})
+		case !fsmx.EqualKVs(got, want):
+			vs = append(vs, viol{"overlapping-loads/table-is-not-the-content-of-the-load-that-reported-success/" + diffSig(got, want), fmt.Sprintf("%s: after load %s reported success the table holds %s, its stream held %s", cs, who, kvsStr(got), kvsStr(want))})
+		case li != decl:
+			vs = append(vs, viol{"overlapping-loads/leader-index-not-the-declared-index", fmt.Sprintf("%s: after load %s: leader index %d, declared %d", cs, who, li, decl)})
+		}
+	}
+	if aerr == nil {
+		check("A", wantA, declA)
+	}
+	var berr error
+	if started {
+		if !nested {
+			close(releaseB)
+		}
+		select {
+		case berr = <-bDone:
+		case <-time.After(120 * time.Second):
+			return vs, "", ra.n, true
+		}
+		if berr == nil && !nested {
+			check("B", wantB, declB)
+		}
+	}
+	_ = m.DeleteTable(tgt)
+	_ = m.DeleteTable(srcA)
+	_ = m.DeleteTable(srcB)
+	return vs, fmt.Sprintf("overlap k=%d nested=%v A=%v B=%v", k, nested, aerr == nil, berr == nil), ra.n, false
+}
+
+func runOverlapRestore(r *evid.Run, e *engx.Engine) {
+	for _, nested := range []bool{false, true} {
+		total := -1
+		for k := 1; total < 0 || k <= total; k++ {
+			if r.Expired() {
+				r.Cap("deadline in the overlapping-loads part")
+				return
+			}
+			vs, outcome, reads, inc := overlapRestoreOne(e, k, nested)
+			if inc {
+				r.Inconcl.Add(1)
+				if total < 0 {
+					break
+				}
+				continue
+			}
+			if total < 0 {
+				total = reads
+			}
+			r.Outcome(outcome, true)
+			r.AddExtra("overlapping_load_cases", 1)
+			for _, v := range vs {
+				r.Violate(v.sig, v.detail, Case{Kind: "overlap-restore", J: k, Prepop: nested})
+			}
+		}
+	}
+}
+
 // runStreamPIT: the leader side of a follower recovery, SnapshotServer.Stream on a real engine, with
 // leader writes (a put in front of all keys, an overwrite, a delete: three log entries) landing
 // before its k-th executed statement, for EVERY k - the statements of Stream itself, of the FSM's
@@ -908,6 +1053,8 @@ func Run(r *evid.Run) {
 	}
 	// point-in-time at engine level: leader writes land before every statement of the real Stream
 	runStreamPIT(r, eng)
+	runOverlapRestore(r, eng)
+	r.Rule("(overlapping loads) two Manager.Restore calls on the same table: load B starts at load A's k-th read (every k) and either completes there or is held at its first read until A has returned; after every load that reports success the table holds exactly that load's content at its declared index")
 	r.Rule("(stream point-in-time) the real SnapshotServer.Stream on a real engine holding three pairs, with three leader writes (put in front, overwrite, delete) landing before its k-th executed statement for EVERY k (statements of Stream, FSM.Lookup and commandSnapshot): the streamed pairs must be the table's content at exactly the index the closing command declares")
 	r.Sample(Case{Kind: "manager", Sizes: []int{40, 300, 1}, MaxInMem: 1000, Prepop: false})
 	r.Sample(Case{Kind: "backup", Sizes: []int{40, 300, 0}, Corrupt: "middle"})
@@ -934,6 +1081,8 @@ func Replay(raw json.RawMessage) (string, bool) {
 		vs, outcome, _ = runPIT(c)
 	case "stream-pit":
 		vs, outcome, _, _ = streamPITOne(eng, c.J)
+	case "overlap-restore":
+		vs, outcome, _, _ = overlapRestoreOne(eng, c.J, c.Prepop)
 	case "manager":
 		vs, outcome, _ = runManager(eng, c)
 	case "backup":
